@@ -305,3 +305,21 @@ func (c *ctx) suiteTokenEdits() []string {
 	}
 	return out
 }
+
+// zeroRich: (hash, counter, digits) under the RFC 4226 test key whose code has at least five (mostly six or seven)
+// leading zeros -- one in 10^5..10^7 counters, found once by an offline search over 12 million counters per hash
+// (inputs only; what the code must be is still computed by the specification from the oracle digests). Padding
+// code that is right for a few leading zeros and wrong for many lives in this slice.
+var zeroRichKey = []byte("12345678901234567890")
+var zeroRich = []struct {
+	Alg int
+	Ctr uint64
+	D   int
+}{
+	{0, 226500, 6}, {0, 349495, 6}, {0, 371561, 8}, {0, 381962, 9}, {0, 674126, 9}, {0, 732066, 10}, {0, 1056625, 8}, {0, 1190411, 10}, {0, 1290532, 6}, {0, 1290532, 7},
+	{0, 1299963, 7}, {0, 1550839, 9}, {0, 1571795, 9}, {0, 2011430, 10}, {0, 4222148, 10},
+	{1, 86011, 9}, {1, 86011, 10}, {1, 187300, 6}, {1, 228408, 10}, {1, 263870, 6}, {1, 774220, 8}, {1, 1079093, 7}, {1, 1098686, 9}, {1, 1144553, 7}, {1, 1366003, 6},
+	{1, 1485815, 6}, {1, 2286624, 8}, {1, 2756830, 10}, {1, 5516941, 9},
+	{2, 128563, 10}, {2, 226670, 10}, {2, 287158, 6}, {2, 329027, 6}, {2, 456387, 9}, {2, 943429, 8}, {2, 1192784, 7}, {2, 1358858, 8}, {2, 1630568, 7}, {2, 2087438, 6},
+	{2, 2105265, 6}, {2, 2137886, 9}, {2, 2433094, 10}, {2, 6135111, 10}, {2, 6387016, 9},
+}
